@@ -16,6 +16,10 @@ SPEC = dict(
         "SymVerif.C29.ne_not_eq",
         "SymVerif.C29.ne_symm",
         "SymVerif.C29.order_guard",
+        "SymVerif.C29.lt_asymm_rel",
+        "SymVerif.C29.lt_trans_rel",
+        "SymVerif.C29.le_total_rel",
+        "SymVerif.C29.le_antisymm_rel",
         "SymVerif.C29.sub_sign",
         "SymVerif.C29.eqNum_rv",
         "SymVerif.C29.D5_orig",
